@@ -31,6 +31,7 @@ type lkHolder struct {
 	ctx    context.Context
 	cancel context.CancelFunc
 	val    string
+	locker int
 }
 
 type lkEp struct {
@@ -104,7 +105,7 @@ func (e *lkEp) got(ctx context.Context, cancel context.CancelFunc, conn int) {
 	val := e.lastVal[conn]
 	e.srv.mu.Unlock()
 	e.mu.Lock()
-	e.holders = append(e.holders, &lkHolder{ctx: ctx, cancel: cancel, val: val})
+	e.holders = append(e.holders, &lkHolder{ctx: ctx, cancel: cancel, val: val, locker: conn - 1})
 	e.mu.Unlock()
 }
 
@@ -479,6 +480,7 @@ func (e *lkEp) op(c *Ctx, line string) {
 			e.cancels = append(e.cancels, stop)
 			e.mu.Lock()
 			e.waiting++
+			e.waitL[1]++
 			e.mu.Unlock()
 			go func() {
 				ctx, cancel, err := lw.WithContext(src, e.name)
@@ -487,6 +489,7 @@ func (e *lkEp) op(c *Ctx, line string) {
 				}
 				e.mu.Lock()
 				e.waiting--
+				e.waitL[1]--
 				e.mu.Unlock()
 			}()
 			settle()
@@ -499,6 +502,9 @@ func (e *lkEp) op(c *Ctx, line string) {
 		go cancel()
 		c.Hit("sib.setup")
 		settle()
+		if e.orphans(c, line) {
+			return
+		}
 		c.Emit(line, e.sibState(), true)
 	case "sib.hdel", "sib.adel": // open one gate: H's delkey of key i / the waiters' connection's delkey of key 0
 		k := "2:0"
@@ -514,6 +520,9 @@ func (e *lkEp) op(c *Ctx, line string) {
 		if !settle() {
 			e.dead = true
 			c.Emit(line, "not-quiescent", true)
+			return
+		}
+		if e.orphans(c, line) {
 			return
 		}
 		if w[0] == "sib.adel" {
@@ -612,21 +621,25 @@ var acqShas = map[string]bool{
 // held). The episode ends here: what follows would depend on that accident.
 func (e *lkEp) orphans(c *Ctx, line string) bool {
 	e.mu.Lock()
-	var ls []int
+	exp := map[int]int{}
 	for l, n := range e.waitL {
-		if n > 0 {
-			ls = append(ls, l)
+		exp[l] += n
+	}
+	for _, h := range e.holders {
+		if h.ctx.Err() == nil {
+			exp[h.locker]++
 		}
 	}
 	e.mu.Unlock()
-	for _, l := range ls {
+	for l, want := range exp {
 		lk := e.lockers[l]
-		if lk == nil {
+		if lk == nil || want == 0 {
 			continue
 		}
-		if reg, _ := rueidislock.VerifGateUsers(lk, e.name); !reg {
+		// every pending WithContext call and every held lock of a Locker is one user of its gate
+		if reg, users := rueidislock.VerifGateUsers(lk, e.name); !reg || users != want {
 			c.Fail("lock:waiter-orphaned:failed-attempt-monitor-before-failure-count", line,
-				fmt.Sprintf("a WithContext caller of Locker %d is parked but the Locker has no gate registered under the lock name: onInvalidations cannot wake it", l))
+				fmt.Sprintf("Locker %d has %d pending WithContext calls / held locks but its gate is registered=%v with %d users: a refused attempt's monitor released the gate as if a lock had been held; onInvalidations can no longer reach its users", l, want, reg, users))
 			e.skip = true
 		}
 	}
